@@ -10,6 +10,8 @@ Driver of C03 / C04 (exe `nv_c03`), line protocol:
   (valid.schema (tsdoc …))         → (schema true|false)
   (kinds.table)                    → (kinds ("5.3.1" FieldNotFound …) …)              Spec/Valid.kindsOf
   (all (tsdoc …) (doc …))          → (all (errs …) (rules …) (spec …) (schema …))   the four answers at once
+  (errs* (tsdoc …) (doc …) …)     → (errs* (errs …) …)                 the model's diagnostics only (K half of `all*`)
+  (judge* (tsdoc …) (doc …) …)    → (judge* (judge (rules …) (spec …) (schema …)) …)   the reference validator only (O half)
   (all* (tsdoc …) (doc …) (doc …) …) → (all* (all …) (all …) …)       `all` for many documents over ONE schema (the schema is
                                                                       parsed, decoded and judged once)
 The tsdoc is the RESOLVED type-system document (built-ins included) the real `ast_to_type_system` consumes.
@@ -65,6 +67,26 @@ def handle : Sexp → Sexp
       .list (.atom "all*" :: ds.map fun d =>
         match Dec.doc d with
         | some D => allSexp S D sv
+        | none => Sexp.err "cannot decode doc")
+  -- the two halves of `all*` over DIFFERENT schemas: K takes the really resolved schema, O the generator's abstract one
+  | .list (.atom "errs*" :: ts :: ds) =>
+    match Dec.tsDoc ts with
+    | none => Sexp.err "cannot decode tsdoc"
+    | some t =>
+      let S : Schema := ⟨t⟩
+      .list (.atom "errs*" :: ds.map fun d =>
+        match Dec.doc d with
+        | some D => errsSexp (CheckOp.checkOp S D)
+        | none => Sexp.err "cannot decode doc")
+  | .list (.atom "judge*" :: ts :: ds) =>
+    match Dec.tsDoc ts with
+    | none => Sexp.err "cannot decode tsdoc"
+    | some t =>
+      let S : Schema := ⟨t⟩
+      let sv := schemaSexp S
+      .list (.atom "judge*" :: ds.map fun d =>
+        match Dec.doc d with
+        | some D => let rs := rulesAndSpec S D; .list [.atom "judge", rs.1, rs.2, sv]
         | none => Sexp.err "cannot decode doc")
   | .list [.atom "kinds.table"] =>
     .list (.atom "kinds" :: ((Valid.ruleTable ++ Valid.extraRuleTable).map fun r =>
